@@ -46,6 +46,10 @@ pub fn c04_case(ctx: &mut Ctx, rng: &mut Rng, stage: &str) {
         if case.opts[0].ignore_space {
             case.sentences[3] = "  \u{3000} ".to_string();
         }
+        // a sentence that begins with U+FEFF (a character like any other, for a fresh and for a reused worker)
+        if case.sentences.len() > 3 && !case.opts[0].ignore_space {
+            case.sentences[3] = format!("{}{}", '\u{FEFF}', case.sentences[2].chars().take(6).collect::<String>());
+        }
         // two different sentences with the same number of characters
         if case.sentences.len() > 5 {
             let rev: String = case.sentences[5].chars().rev().collect();
@@ -968,7 +972,7 @@ pub fn c08_case(ctx: &mut Ctx, rng: &mut Rng) {
 
     // ---- invalid user lexicons are rejected with an error
     {
-        let bad_rows: Vec<(&str, String)> = vec![
+        let mut bad_rows: Vec<(&str, String)> = vec![
             ("left_id_out_of_range", format!("zz,{},0,1,X\n", nl + rng.below(3))),
             ("right_id_out_of_range", format!("zz,0,{},1,X\n", nr + rng.below(3))),
             ("id_65535", "zz,65535,0,1,X\n".to_string()),
@@ -983,7 +987,12 @@ pub fn c08_case(ctx: &mut Ctx, rng: &mut Rng) {
             ("right_id_beyond_u16", format!("zz,0,{},1,X\n", 65536 * (1 + rng.below(3)) + rng.below(nr))),
             ("cost_beyond_i16_wrapping_to_valid", format!("zz,0,0,{},X\n", 65536 + rng.below(100))),
         ];
-        for (name, csv) in bad_rows {
+        bad_rows.truncate(12);
+        let mut bad_bytes: Vec<(&str, Vec<u8>, String)> = bad_rows.into_iter().map(|(n, s)| (n, s.clone().into_bytes(), s)).collect();
+        // bytes that are not UTF-8, in the surface and in the feature
+        bad_bytes.push(("surface_not_utf8", b"\xff\xfe,0,0,1,X\n".to_vec(), "<FF FE>,0,0,1,X".to_string()));
+        bad_bytes.push(("feature_not_utf8", b"zz,0,0,1,\xe3\x81\n".to_vec(), "zz,0,0,1,<E3 81>".to_string()));
+        for (name, bytes, csv) in bad_bytes {
             let d = match mk(ctx) {
                 Some(d) => d,
                 None => return,
@@ -991,8 +1000,8 @@ pub fn c08_case(ctx: &mut Ctx, rng: &mut Rng) {
             // possibly on top of an already loaded lexicon
             let d = if rng.chance(0.3) { load_user(d, Some(&u2)).ok().and_then(|r| r.ok()).unwrap_or_else(|| mk(ctx).unwrap()) } else { d };
             ctx.eval();
-            let csv2 = csv.clone();
-            match guarded(move || d.reset_user_lexicon_from_reader(Some(csv2.as_bytes())).is_ok()) {
+            let csv2 = bytes.clone();
+            match guarded(move || d.reset_user_lexicon_from_reader(Some(csv2.as_slice())).is_ok()) {
                 Ok(false) => ctx.bucket(&format!("invalid_user_lexicon_rejected_{name}")),
                 Ok(true) => ctx.violation("invalid_user_lexicon_accepted", &format!("C08:invalid_user_lexicon_accepted:{name}"), format!("user csv {:?} for a {nr}x{nl} connector", csv), files(json!({"user.csv": csv}))),
                 Err(p) => ctx.violation("invalid_user_lexicon_panicked", &format!("C08:invalid_user_lexicon_panicked:{name}:{}", panic_class(&p)), format!("user csv {:?}: {p}", csv), files(json!({"user.csv": csv}))),
